@@ -181,6 +181,9 @@ def run_shard(rec):
                 rec.drop()
                 continue
             alpha, bm = 'ab1(', False
+        if i % 3 == 1 and not bm:
+            G = dict(G, stmts=list(G['stmts']) + [rec.rng.choice([('ignore', ('re', ' +', False)), ('irule', 'Space', ('str', ' '))])])
+            alpha = alpha[:2] + ' '
         run_one(rec, G, ('random', kind), alpha, 3 if quick else 4, bm, named=(i % 5 == 4))
 
 
